@@ -36,6 +36,8 @@ ASSUMPTIONS = [
     "embedding drops blank-node cycles (from_graph only starts at IRIs and unreferenced blank nodes) - a text-layer defect in "
     "the domain of C03, outside the routing model",
     "Memory store, default_union=False",
+    "json-ld cases serialised with an active context (context=... or auto_compact) contain no falsy literal object: the "
+    "serialiser drops such statements then (compaction tests the value by truthiness) - term/text layer, C03's domain",
     "text level: terms are those rdflib accepts when writing N-Triples (valid IRIs with a scheme, legal labels and language tags, "
     "no lone surrogates); literals use no datatype whose lexical form rdflib normalises (C09's domain); RDF Patch prefix rows "
     "(PA/PD) are not modelled and not generated; header ids contain no line break",
@@ -45,7 +47,8 @@ RULE = ("a case is (format, dataset[, target dataset]); datasets have 0-4 named 
         "names, a name equal to a subject IRI and a name equal to a blank node used in triples, 1-5 triples over a tiny "
         "vocabulary plus (45% of the cases) one or two well-formed RDF collections of length 1-3 each inside one graph, "
         "vocabulary (falsy literals included) spread over the graphs so that triples and blank nodes are shared; "
-        "55% of the cases carry serialisation options (document base, per-graph base, bound prefixes; graph names and terms "
+        "55% of the cases carry serialisation options (document base, per-graph base, bound prefixes, for JSON-LD a context with @vocab / "
+        "prefix / term for a graph IRI or auto_compact; graph names and terms "
         "lie under the bases); text/hextrows/trixtree suites: 0-4 quads over string pools with quotes, backslashes, line breaks, NBSP and "
         "astral characters, IRI/blank-node graph labels, plus disturbed documents/trees for the readers (extra blanks, comments, CRLF, "
         "missing dots, <_:label> forms, wrong operation codes, misplaced elements); distinct = distinct case content; non-trivial = at least one named graph holds a triple")
@@ -65,6 +68,9 @@ GIRI_ID = {tkey(g): i for i, g in GIRI.items()}
 # serialisation options: spelling choices that must not move a statement (the model ignores them)
 BASES = [None, "http://e/", "http://e/g/", "http://o/"]
 BINDS = [[], [("e", "http://e/")], [("e", "http://e/"), ("g", "urn:g:"), ("eg", "http://e/g/")]]
+# JSON-LD only: serialize(format="json-ld", context=...) / auto_compact=True
+JCTX = [None, {"@vocab": "http://e/"}, {"@vocab": "http://e/g/"}, {"e": "http://e/"},
+        {"ga": "http://e/a", "g1": "http://e/g/1"}, {"@vocab": "urn:g:"}, "auto_compact"]
 NO_OPTS = {"base": 0, "gbase": {}, "bind": 0}
 
 
@@ -280,7 +286,8 @@ class C06(Suite):
         for c in d["graphs"]:
             if c % 2 == 0 and rng.random() < 0.4:
                 gbase[str(c)] = rng.choice([1, 2, 3])
-        return {"base": base, "gbase": gbase, "bind": rng.choice([0, 1, 2])}
+        return {"base": base, "gbase": gbase, "bind": rng.choice([0, 1, 2]),
+                "ctx": rng.choice([0, 0, 1, 2, 3, 4, 5, 6])}
 
     def gen(self, rng, i):
         fmt = rng.choice(["nquads", "hext", "trig", "trix", "json-ld", "patch", "patchdiff", "patchdiff"])
@@ -321,7 +328,16 @@ class C06(Suite):
         if fmt == "json-ld":
             src["quads"] = [q for q in src["quads"] if not bnode_edge(q)]
         self.add_lists(rng, src)
-        return {"fmt": fmt, "src": src, "tgt": EMPTY, "opts": self.gen_opts(rng, src)}
+        opts = self.gen_opts(rng, src)
+        if fmt == "json-ld" and opts.get("ctx"):
+            # with an active context the JSON-LD serialiser drops statements whose object is a falsy literal ("" 0 false 0.0):
+            # term/text layer (C03's domain) - such objects are replaced by truthy ones in these cases
+            sub = {10: 20, 12: 22, 14: 18, 28: 22}
+            src["quads"] = [[q[0], q[1], sub.get(q[2], q[2]), q[3]] for q in src["quads"]]
+            src["quads"] = [q for i, q in enumerate(src["quads"]) if q not in src["quads"][:i]]
+            for L in src["lists"]:
+                L["members"] = [sub.get(m, m) for m in L["members"]]
+        return {"fmt": fmt, "src": src, "tgt": EMPTY, "opts": opts}
 
     # ------------------------------------------------------------ implementation
     def run_impl(self, case):
@@ -336,7 +352,14 @@ class C06(Suite):
                 text = ds.serialize(format="patch", target=tgt, **kw)
                 ds.parse(data=text, format="patch")
                 return {"exact": True, "quads": content(ds)}
-            text = ds.serialize(format=fmt, **kw)
+            skw = dict(kw)
+            if fmt == "json-ld" and opts.get("ctx"):
+                c = JCTX[opts["ctx"]]
+                if c == "auto_compact":
+                    skw["auto_compact"] = True
+                else:
+                    skw["context"] = c
+            text = ds.serialize(format=fmt, **skw)
             back = Dataset()
             # a JSON-LD document written against a base does not record it: the reader supplies the same base
             back.parse(data=text, format=fmt, **(kw if fmt == "json-ld" else {}))
@@ -367,6 +390,7 @@ class C06(Suite):
         f["opt_base"] = int(opts.get("base", 0) != 0)
         f["opt_graph_base"] = int(bool(opts.get("gbase")))
         f["opt_bind"] = int(opts.get("bind", 0) != 0)
+        f["opt_jsonld_context"] = int(case["fmt"] == "json-ld" and bool(opts.get("ctx")))
         b = BASES[opts.get("base", 0)]
         f["opt_graph_name_under_base_with_other_graph_base"] = int(any(
             b is not None and str(gname(int(c))).startswith(b) and BASES[gb] != b for c, gb in opts.get("gbase", {}).items()))
@@ -403,6 +427,8 @@ class C06(Suite):
             yield dict(case, opts=dict(NO_OPTS))
             if opts.get("bind"):
                 yield dict(case, opts=dict(opts, bind=0))
+            if opts.get("ctx"):
+                yield dict(case, opts=dict(opts, ctx=0))
             if opts.get("base"):
                 yield dict(case, opts=dict(opts, base=0))
             for k in list(opts.get("gbase", {})):
@@ -447,6 +473,12 @@ class C06(Suite):
                         gb = {k: v for k, v in (("212", g1), ("214", g2)) if v}
                         for fmt in ("nquads", "hext", "trig", "trix", "json-ld", "patch"):
                             yield {"fmt": fmt, "src": d, "tgt": EMPTY, "opts": {"base": base, "gbase": gb, "bind": bind}}
+        d2 = {"graphs": [212, 214, 202, 2], "quads": [[2, 6, 4, 0], [2, 6, 24, 212], [4, 8, 12, 214], [2, 6, 4, 202], [4, 6, 2, 2]],
+              "lists": []}
+        for ctx in range(len(JCTX)):
+            for base in (0, 1):
+                for bind in range(len(BINDS)):
+                    yield {"fmt": "json-ld", "src": d2, "tgt": EMPTY, "opts": {"base": base, "gbase": {}, "bind": bind, "ctx": ctx}}
         # one collection of length 1..3 in the default / IRI-named / blank-node-named graph, next to a plain triple
         for g in cids:
             for n in (1, 2, 3):
